@@ -15,7 +15,7 @@ CLAIMS = {
               'cannot raise, every return is a {result,error} record, error is None or str() of a canonical singleton, '
               'error set => result None, result never an error object; closed 9-entry code table (enumerated by abstractly running from_message on an arbitrary argument), who-may-construct XLError; '
               'every reachable loop matches a termination idiom with the interval facts it needs. Not decided: cost of finite '
-              'big-integer work and regex backtracking. str() of an error object cannot raise (a __str__ of the error class returns text for every way the object can be built).',
+              'big-integer work and polynomial backtracking of constant regexes; a regex assembled at run time receives no input-sized number of unbounded quantifiers. str() of an error object cannot raise (a __str__ of the error class returns text for every way the object can be built).',
               'path enumeration + catch-all/handler discipline + literal-table agreement + loop-variant idioms with guard-derived interval facts',
               'DESIGN.md 5 C01'),
     'C02': _c('Whole-package effect analysis from parse(): no write to module/class/instance state during evaluation (allow-list: '
@@ -79,12 +79,12 @@ CLAIMS = {
               'finite-quotient evaluation + table agreement + guard dominance',
               'DESIGN.md 5 C14'),
     'C15': _c('Structural clauses only: no negative-zero slice, negative counts rejected, SUBSTITUTE unchanged-exit independent of the '
-              'replacement, a find() position is tested for not-found before it bounds a slice, the k-th occurrence through find()/split() on instance numbers 1..3, no identity comparison of computed numbers or texts, tuple rows flattened like lists, joins over all flattened items in order. String-value algebra (idempotence etc.) NOT decided.',
+              'replacement, a find() position is tested for not-found before it bounds a slice, the k-th occurrence through find()/split() on instance numbers 1..3, no identity comparison of computed numbers or texts, tuple rows flattened like lists, TRIM removes spaces only (constant table), joins over all flattened items in order. String-value algebra (idempotence etc.) NOT decided.',
               'guard dominance with interval facts + path-condition dependence + dataflow roles',
               'DESIGN.md 5 C15'),
     'C16': _c('Structural clauses only: delegation table name->math function, coercion+error guard dominates every use (sibling rule), '
               'ATAN2 origin guard and argument roles, inclusive random range, PV closed form satisfies the annuity equation as a '
-              'polynomial identity, a complex power is never returned, shared text-to-number coercion. Floating-point accuracy NOT decided.',
+              'polynomial identity, a complex power is never returned, an empty argument in the middle of PV keeps the later ones in place, shared text-to-number coercion. Floating-point accuracy NOT decided.',
               'delegation-table agreement + guard dominance + polynomial normal form identity',
               'DESIGN.md 5 C16'),
     'C17': _c('Structural clauses only: documented domains enforced by dominating guards (interval facts), termination of loops, '
@@ -104,7 +104,7 @@ CLAIMS = {
     'C20': _c('Structural necessary conditions over all histories: delivery over an order-preserving snapshot to every listener with '
               '(*args, **ctx); on() appends unconditionally; once-wrapper unsubscribes before calling, is found by off(), registered via '
               'on(); off() filter equals the specification on all 8 atom valuations and keeps order; off(name) drops the key; storage keyed '
-              'by name only; no list resized inside a loop over itself; off() edits the storage only after looking through the listeners; paired bookkeeping around the delivery restored on every exit. Full trace semantics of arbitrary interleavings NOT decided (model-checking family).',
+              'by name only; no list resized inside a loop over itself; off() edits the storage only after looking through the listeners; paired bookkeeping around the delivery restored on every exit; twelve scripted on/once/off/emit histories with opaque callbacks, run on the abstract emitter, give exactly the prescribed calls. Full trace semantics of arbitrary interleavings NOT decided (model-checking family).',
               'ast pattern rules + path enumeration (ordering/exactly-once) + boolean truth-table evaluation of the filter',
               'DESIGN.md 5 C20'),
 }
